@@ -104,6 +104,14 @@ def rejected_calls(w, rng):
         out.append('sdim %s 1 ticks %s' % (a.slot, lst([f64(2.0), f64(1.0)])))
         out.append('sdim %s 1 unit %s' % (a.slot, S('parsec')))
         out.append('da_setext %s [1,1,1,1,1]' % a.slot)
+    # data of the wrong class (numbers for a string array, strings for a numeric one), whole and appended, larger and smaller than
+    # the array: refused after the front end has worked out the new extent
+    for a in [x for x in w.alive('A') if getattr(x, 'dtype', None) and x.shape and len(x.shape) == 1][:4]:
+        nums, strs = lst([f64(float(i)) for i in range(rng.choice([1, 2, 7]))]), lst([S('s%d' % i) for i in range(rng.choice([1, 2, 7]))])
+        if a.dtype == 'String':
+            out += ['da_fill %s %s' % (a.slot, nums), 'da_append %s %s' % (a.slot, nums)]
+        else:
+            out += ['da_fills %s %s' % (a.slot, strs), 'da_appends %s %s' % (a.slot, strs)]
     for p in w.alive('P')[:3]:
         out.append('pvalues %s %s' % (p.slot, lst(['Double:' + f64(5.0), 'String:' + S('x')])))
         out.append('pvalues %s %s' % (p.slot, lst(['String:' + S('x'), 'String:' + S('y'), 'Int32:3'])))
